@@ -451,6 +451,18 @@ def run(ctx):
             last_build = None
             retbl = ecma_retbl({(p, s): (k, v) for p, s, k, v in op.get("re", [])})
             continue
+        if kind == "vpformat":
+            sup = op.get("supported") or []
+            want_f = "jwt_vp" if ("jwt_vp" in sup or "jwt_vp_json" in sup) else "ldp_vp" if "ldp_vp" in sup else ""
+            counts["vpformat:" + (line[9:] or "none")] += 1
+            if line != "vpformat " + want_f:
+                sig = "C12:vpformat:" + (line[9:] or "none") + "-for-" + "+".join(sorted(sup))
+                if sig not in seen_sig:
+                    seen_sig[sig] = ctx.violation(sig, f"ChooseVPFormat({sorted(sup)}) = '{line[9:]}', the presenter must prefer jwt_vp (also for jwt_vp_json), then ldp_vp, else none (op line {i})",
+                                                  "vpformat.jsonl", ops_raw[i] + "\n")
+                if seen_sig[sig]:
+                    oracle_bad += 1
+            continue
         if kind == "reject" or case is None:
             continue
         pd = case["def"]
@@ -841,6 +853,74 @@ def run(ctx):
                 counts["oracle-undecided"] += 1
             if flds and r.get("duplicateFieldRefused") is False:
                 creport("C12:consumer:duplicate-field-not-refused", "the same field id mapped by two presentation definitions was not refused", k)
+
+    # ---- the scripted PEXConsumer session (two required definitions) of the iam leg against the Lean model
+    #      (NutsModel/C12/Consumer.lean, driver op `consumer`), plus direct oracles on the implementation's own line
+    script = {}
+    for l in ctx.read_lines(os.path.join(out, "iam.consumer.out")):
+        if l and "\t" in l:
+            n_, line_ = l.split("\t", 1)
+            script[int(n_)] = line_
+    if script:
+        c_lines, c_want, defid = [], [], ""
+        for k_, raw in enumerate(ops_raw):
+            if not raw:
+                continue
+            if raw.startswith('{"op":"case"') or raw.startswith('{"op":"reject"'):
+                c_lines.append(raw)
+                if raw.startswith('{"op":"case"'):
+                    try:
+                        defid = json.loads(json.loads(raw)["defRaw"]).get("id", "")
+                    except Exception:
+                        defid = ""
+            elif raw.startswith('{"op":"validate"'):
+                o = json.loads(raw)
+                if o.get("n") in script:
+                    o["op"], o["defId"] = "consumer", defid
+                    c_lines.append(json.dumps(o))
+                    c_want.append((k_, o["n"]))
+        c_ops, c_model = os.path.join(out, "iam.ops.jsonl"), os.path.join(out, "iam.model.out")
+        with open(c_ops, "w") as f:
+            f.write("\n".join(c_lines) + "\n")
+        okc, errc = ctx.model("C12", c_ops, c_model)
+        ctx.oblige("model-driver-runs:consumer", okc, errc[-400:])
+        c_got = [l for l in ctx.read_lines(c_model) if l.startswith("consumer ")]
+        ctx.oblige("correspondence:consumer-model-lines", len(c_got) == len(c_want), f"{len(c_got)} model lines for {len(c_want)} sessions")
+        c_bad = 0
+        for (k, n_), mline in zip(c_want, c_got):
+            iline = script[n_]
+            counts["iam-session:" + ("accepted" if " f1=ok " in iline else "refused")] += 1
+            if iline != mline:
+                c_bad += 1
+                fields_i = dict(x.split("=", 1) for x in re.split(r" (?=[a-z0-9]+=)", iline[len("consumer "):])) if iline.startswith("consumer next0") else {}
+                fields_m = dict(x.split("=", 1) for x in re.split(r" (?=[a-z0-9]+=)", mline[len("consumer "):]))
+                diff = sorted(f_ for f_ in set(fields_i) | set(fields_m) if fields_i.get(f_) != fields_m.get(f_)) or ["line"]
+                creport("C12:consumer-session:model-differs:" + diff[0],
+                        f"PEXConsumer session differs from the Lean model at {diff[0]}: impl {iline[:160]} / model {mline[:160]}", k)
+                continue
+            # direct oracles on the implementation's own line
+            pe_line = impl[k] if k < len(impl) else ""
+            pe_ok = pe_line.startswith("validate ok")
+            f = dict(x.split("=", 1) for x in re.split(r" (?=[a-z0-9]+=)", iline[len("consumer "):]))
+            if f.get("other") != "err:not-required":
+                creport("C12:consumer-session:unrequired-definition-not-refused", f"fulfill for an unrequired definition id: {f.get('other')}", k)
+            if f.get("next0") != "organization":
+                creport("C12:consumer-session:next-order", f"next() of a fresh consumer = {f.get('next0')}", k)
+            if pe_ok:
+                exp = {"f1": "ok", "next1": "user", "again": "err:already", "f2": "ok", "next2": "none"}
+            else:
+                exp = {"f1": "err:validate", "next1": "organization", "again": "err:validate", "f2": "err:validate", "next2": "organization", "cm": "{}"}
+            for kk, vv in exp.items():
+                if f.get(kk) != vv:
+                    creport("C12:consumer-session:" + kk, f"PEXConsumer session: {kk}={f.get(kk)} although Validate says '{pe_line[:50]}' (expected {vv})", k)
+            if f.get("cm", "").startswith("err"):
+                creport("C12:consumer-session:credentialMap-fails", "credentialMap() fails on a state reached by accepted fulfill calls only", k)
+            if f.get("v1", "").startswith("ok {") and f.get("v1") != "ok {}" and f.get("v2") != "err:duplicate-field":
+                creport("C12:consumer-session:duplicate-field-not-refused", f"two definitions map the same fields but resolveInputDescriptorValues says {f.get('v2', '')[:60]}", k)
+            if f.get("v1") == "ok {}" and f.get("v2") != "ok {}":
+                creport("C12:consumer-session:duplicate-field-spurious", f"no named field, but two definitions give {f.get('v2', '')[:60]}", k)
+        ctx.oblige("correspondence:consumer-model=impl", c_bad == 0, f"{c_bad} of {len(c_want)} PEXConsumer sessions differ from the model")
+        ctx.cov["consumer_sessions_vs_model"] = len(c_want)
 
     # wallet side: presenter.buildSubmission, then what the verifier does with its output
     for r in consumer_leg(HOLDER_PKG, HOLDER_HARNESS, "c12holder", "TestVerifC12Holder", "holder.out", 4000):
